@@ -7,6 +7,7 @@
  R19.5 '+' continuation exactly for accepted synchronising literals
  R19.6 the line terminator is removed without touching the front of the line
  R19.7 literals are taken by exact count; literal detection looks at the line just read
+ R19.8 an over-long digit string as literal count is refused like any over-limit literal (no ValueError out of the loop)
 """
 from __future__ import annotations
 
@@ -344,7 +345,49 @@ def r19_6_7(ctx):
         ctx.bad("R19.7", fi.module, fi.qual, "readuntil(self.LINE_TERMINATOR)", "client lines are no longer read up to the line terminator", fi.node.lineno)
 
 
+def r19_8(ctx):
+    """The announced octet count is converted with int(): a count of more than 4300 digits raises ValueError there."""
+    p = ctx.p
+    fi = p.func("server.IMAPClient.start")
+    R = _roles(ctx, fi)
+    par = parmap(fi)
+    sites = [s for s in body_walk(fi.node) if isinstance(s, ast.Assign) and norm(s.targets[0]) == R["L"] and isinstance(s.value, ast.Call) and call_name(s.value) == "int"]
+    ctx.floor("R19.8", len(sites), 1, "int() conversions of the announced literal count")
+    pat = _regex_src(p, "server")
+    ctx.require(pat is not None, "RE_LITERAL_STRING_START not found")
+    try:
+        width = rl.group_max_width(pat.decode("latin-1") if isinstance(pat, bytes) else pat, 1)
+    except Exception:  # noqa: BLE001
+        width = None
+    for s in sites:
+        if width is not None and width <= 4300:
+            ctx.ok("R19.8", where(fi), f"{norm(s)}: the pattern admits at most {width} digits")
+            continue
+        cur, handler = s, None
+        while cur in par:
+            pr = par[cur]
+            if isinstance(pr, ast.Try) and cur in pr.body:
+                for h in pr.handlers:
+                    names = {norm(t).split(".")[-1] for t in (h.type.elts if isinstance(h.type, ast.Tuple) else [h.type])} if h.type else {"BaseException"}
+                    if names & {"ValueError", "Exception", "BaseException"}:
+                        handler = h
+                break
+            if isinstance(pr, (ast.While, ast.For, ast.AsyncFor)):
+                break  # a handler outside the read loop ends the session
+            cur = pr
+        if handler is not None and not any(isinstance(x, (ast.Raise, ast.Return, ast.Break)) for st in handler.body for x in walk_no_nested(st)):
+            ctx.ok("R19.8", where(fi), f"{norm(s)}: digit count unbounded, ValueError handled inside the read loop (session continues)")
+        else:
+            ctx.bad(
+                "R19.8", fi.module, fi.qual, norm(s),
+                "the literal pattern admits any number of digits and int() raises ValueError beyond 4300 of them: "
+                "`A1 LOGIN {99...9}` ends the connection through the catch-all handler instead of being refused with BAD",
+                s.lineno,
+            )
+
+
 def run(ctx):
+    r19_8(ctx)
     r19_1(ctx)
     r19_2(ctx)
     r19_3(ctx)
